@@ -7,6 +7,7 @@
 package termincommittee
 
 import (
+	"bytes"
 	"context"
 	"fmt"
 	"github.com/orbs-network/lean-helix-go/instrumentation/metrics"
@@ -237,6 +238,20 @@ func calcLeaderOfViewAndCommittee(view primitives.View, committeeMembers []inter
 	return committeeMembers[index].Id
 }
 
+// Block proofs and prepared proofs carry a block reference that is encoded again from the fields of the messages they
+// were built from, next to the signatures those messages came with. A signature over a header that is not the
+// canonical encoding of its fields (trailing bytes, for one) would not verify there, so such a header is not accepted.
+func isCanonicalBlockRef(header *protocol.BlockRef) bool {
+	canonical := (&protocol.BlockRefBuilder{
+		MessageType: header.MessageType(),
+		InstanceId:  header.InstanceId(),
+		BlockHeight: header.BlockHeight(),
+		View:        header.View(),
+		BlockHash:   header.BlockHash(),
+	}).Build().Raw()
+	return bytes.Equal(canonical, header.Raw())
+}
+
 func (tic *TermInCommittee) moveToNextLeaderByElection(height primitives.BlockHeight, view primitives.View, updateMetrics interfaces.OnElectionCallback) {
 
 	currentHV := tic.State.HeightView()
@@ -418,6 +433,9 @@ func (tic *TermInCommittee) validatePreprepare(ppm *interfaces.PreprepareMessage
 	if header.MessageType() != protocol.LEAN_HELIX_PREPREPARE {
 		return fmt.Errorf("signed header has message type %v, not PREPREPARE", header.MessageType())
 	}
+	if !isCanonicalBlockRef(header) {
+		return errors.New("signed header is not canonically encoded")
+	}
 	if err := tic.keyManager.VerifyConsensusMessage(header.BlockHeight(), header.Raw(), sender); err != nil {
 		tic.logger.ConsensusTrace("failed to verify preprepare - maybe a committee mismatch?", err, log.Stringable("sender", sender))
 
@@ -467,6 +485,10 @@ func (tic *TermInCommittee) HandlePrepare(pm *interfaces.PrepareMessage) {
 
 	if header.MessageType() != protocol.LEAN_HELIX_PREPARE {
 		tic.logger.Info("LHMSG RECEIVED PREPARE IGNORE - signed header has message type %v", header.MessageType())
+		return
+	}
+	if !isCanonicalBlockRef(header) {
+		tic.logger.Info("LHMSG RECEIVED PREPARE IGNORE - signed header is not canonically encoded")
 		return
 	}
 	if err := tic.keyManager.VerifyConsensusMessage(header.BlockHeight(), header.Raw(), sender); err != nil {
@@ -559,6 +581,10 @@ func (tic *TermInCommittee) HandleCommit(cm *interfaces.CommitMessage) {
 
 	if header.MessageType() != protocol.LEAN_HELIX_COMMIT {
 		tic.logger.Info("LHMSG RECEIVED COMMIT IGNORE - signed header has message type %v", header.MessageType())
+		return
+	}
+	if !isCanonicalBlockRef(header) {
+		tic.logger.Info("LHMSG RECEIVED COMMIT IGNORE - signed header is not canonically encoded")
 		return
 	}
 	if err := tic.keyManager.VerifyConsensusMessage(header.BlockHeight(), header.Raw(), sender); err != nil {
